@@ -154,35 +154,45 @@ class WARCRecord(object):
         '''Return the HTTP header.
 
         The header block is read up to its terminating empty line,
-        however long it is.
+        however long it is. Interim (1xx) responses recorded in front of
+        the final response are skipped.
 
         Returns:
             Response, None: Returns an instance of
             :class:`.http.request.Response` or None.
         '''
-        header_lines = []
-
         with wpull.util.reset_file_offset(self.block_file):
             while True:
-                line = self.block_file.readline()
+                header_lines = []
 
-                if not line.endswith(b'\n'):
-                    # The block ended before the header block did.
+                while True:
+                    line = self.block_file.readline()
+
+                    if not line.endswith(b'\n'):
+                        # The block ended before the header block did.
+                        return
+
+                    header_lines.append(line)
+
+                    if line in (b'\r\n', b'\n'):
+                        break
+
+                header_data = b''.join(header_lines)
+
+                status_line, dummy, field_str = header_data.partition(b'\n')
+
+                try:
+                    version, code, reason = Response.parse_status_line(
+                        status_line)
+                except ValueError:
                     return
 
-                header_lines.append(line)
+                if 100 <= code < 200 and code != 101:
+                    # Interim response (RFC 7230 section 6.2): the header
+                    # block of the final response follows in the block.
+                    continue
 
-                if line in (b'\r\n', b'\n'):
-                    break
-
-        header_data = b''.join(header_lines)
-
-        status_line, dummy, field_str = header_data.partition(b'\n')
-
-        try:
-            version, code, reason = Response.parse_status_line(status_line)
-        except ValueError:
-            return
+                break
 
         response = Response(status_code=code, reason=reason, version=version)
 
